@@ -351,3 +351,31 @@ func putsPooled(v ssa.Value, pool *ssa.Global, T types.Type) bool {
 	sc := call.Call.StaticCallee()
 	return sc != nil && sc.String() == "(*sync.Pool).Get" && len(call.Call.Args) == 1 && call.Call.Args[0] == ssa.Value(pool)
 }
+
+// initTableNonNil: v is a load of table[i].f… for a package-level array that only its initialiser writes and whose
+// every element got a non-nil value there (a dispatch table of constructors indexed by a small enum).
+func (a *FuncAn) initTableNonNil(v ssa.Value) bool {
+	ld, ok := v.(*ssa.UnOp)
+	if !ok || ld.Op != token.MUL {
+		return false
+	}
+	var fields []int
+	addr := ld.X
+	for {
+		fa, ok := addr.(*ssa.FieldAddr)
+		if !ok {
+			break
+		}
+		fields = append([]int{fa.Field}, fields...)
+		addr = fa.X
+	}
+	ia, ok := addr.(*ssa.IndexAddr)
+	if !ok {
+		return false
+	}
+	g, ok := ia.X.(*ssa.Global)
+	if !ok {
+		return false
+	}
+	return a.E.initOnlyElemsNonNil(g, fields)
+}
